@@ -58,6 +58,19 @@ STYLES = {
        "Do NOT touch x/recovery, x/ethereum, genesis import/export code or app/ante, and add no in-memory caches (earlier "
        "engineers did all of that). The effect should ideally appear only some operations or blocks after the faulty "
        "step."),
+ '9': ("Prefer one of these styles, whichever fits, and prefer functions and modules listed above that the earlier "
+       "engineers did NOT touch: (a) behaviour that differs only under NON-DEFAULT configuration (a network property, "
+       "token rate / flag, role set-up, pool or dApp parameter that is rarely changed: the default value hides the "
+       "fault); (b) behaviour that differs only with MANY objects or participants (three or more voters / delegators / "
+       "custodians / beneficiaries / bonders / baskets / pools, a full pool, the 2nd page of an iteration, the 11th "
+       "element) or only for the LAST / FIRST element of a collection; (c) address handling: account address vs validator "
+       "operator address vs consensus address of the same key, bech32 string vs bytes, upper / lower case or a different "
+       "prefix of the same address, an address that is also a module account; (d) time: two blocks with the same time, a "
+       "block time exactly on a deadline, a very long gap between two blocks, a deadline stored in one unit and compared "
+       "in another; (e) an amount of exactly zero, exactly the balance, exactly the limit, or a coin list with two "
+       "denominations where one amount is zero. Do NOT touch x/recovery, x/ethereum, x/collectives, genesis import/export "
+       "code, app/ante or the gov EndBlocker, and add no in-memory caches or Go maps (earlier engineers did all of that). "
+       "The effect should ideally appear only some operations or blocks after the faulty step."),
  '5': ("Prefer one of these styles, whichever fits: (a) arithmetic: a changed rounding direction, order of "
        "multiplication and division, integer width or sign conversion that only matters for particular magnitudes; "
        "(b) iteration: an iterator bound, prefix or pagination change that only matters when a second object with a "
